@@ -75,6 +75,9 @@ def run(ctx):
     k = 2 if ctx.tier == 'quick' else 3
     tasks = []
     opts = dict(post='props.C09.post')
+    # concatenations with 9..23 operands (restructuring passes may treat wide concats differently)
+    fam = fam + [{'name': 'concat_many', 'params': {'n': n, 'w': w}} for (n, w) in
+                 ((9, 18), (11, 22), (13, 26), (14, 21), (15, 30), (19, 23), (23, 27))]
     for d in fam:
         ds = passcheck.design_with_pre(d, ['synthesize'])
         for p in GATE:
